@@ -534,6 +534,33 @@ def _obs_worker(args):
                             out["disagreements"].append({"where": "current_transition", "replay": {
                                 "impl": [float(v) for v in iv], "model": [float(v) for v in mv]}})
             elif fac == "BinaryOperationArrayObservation":
+                # independent reading by job NUMBER (not by position in state.jobs)
+                try:
+                    from jobshoplab.utils.utils import get_id_int
+                    from jobshoplab.types.state_types import OperationStateState as OS2
+                    s_ = env.state.state
+                    byn = sorted(s_.jobs, key=lambda j: get_id_int(j.id))
+                    exp_ops = []
+                    for j in byn:
+                        for o in j.operations:
+                            if o.operation_state_state == OS2.IDLE:
+                                exp_ops.append(np.float32(0))
+                            elif o.operation_state_state == OS2.DONE:
+                                exp_ops.append(np.float32(1))
+                            else:
+                                dur = o.end_time.time - o.start_time.time
+                                exp_ops.append(np.float32((s_.time.time - o.start_time.time) / dur) if dur else None)
+                    fobj = env.state_simulator.observation_factory
+                    exp_loc = [np.float32(int(j.location.split("-")[1]) / fobj.max_buffer_id) for j in byn]
+                    got_ops = [np.float32(v) for v in np.asarray(obs["operation_state"]).reshape(-1)]
+                    got_loc = [np.float32(v) for v in np.asarray(obs["job_locations"]).reshape(-1)]
+                    bad_ops = len(got_ops) != len(exp_ops) or any(e is not None and e != g for e, g in zip(exp_ops, got_ops))
+                    if bad_ops or got_loc != exp_loc:
+                        out["violations"].append({"kind": "obs:not_faithful", "detail": "operation_state / job_locations are not "
+                                                  "indexed by job number (state.jobs order: %s)" % [j.id for j in s_.jobs][:14],
+                                                  "replay": {"dsl": d, "factory": fac}, "facts": {"field": "operation_array_by_number"}})
+                except Exception:  # noqa
+                    pass
                 m = drv.ask("OA %s %s" % (st["labels"], sx_state))
                 p = sxdiff.parse(m)
                 if p[0] != "oa":
@@ -548,6 +575,12 @@ def _obs_worker(args):
                     out["disagreements"].append({"where": "operation array", "replay": {
                         "impl": [[float(v) for v in io], [float(v) for v in il]],
                         "model": [[float(v) for v in mo], [float(v) for v in ml]]}})
+                    # the model reads operation k of job NUMBER j (theorems of Props/C15.v): a different array is an
+                    # observation that does not encode the state - reported with the input
+                    out["violations"].append({"kind": "obs:not_faithful", "detail": "operation_state / job_locations differ from "
+                                              "the reading by job and operation number (the proved model)",
+                                              "replay": {"dsl": d, "factory": fac, "state": sx_state[:3000]},
+                                              "facts": {"field": "operation_array"}})
             # offers must be distinguishable
             if fac in ("BinaryActionObservationFactory", "BinaryOperationArrayObservation") and not done:
                 offs = list(env.state.possible_transitions)
@@ -999,6 +1032,13 @@ def c09_compile_stage(ctx):
     for k in range(n):
         nm = rng.choice([2, 3, 11, 12, 13])
         d, feats = gen.gen_instance(rng, "full", nj=rng.randint(1, 3), nm=nm)
+        if rng.random() < 0.5:
+            # rows of the setup matrices in another order than the header columns (each row keeps its label)
+            for e in d["instance_config"].get("setup_times", []):
+                ls = [l for l in e["specification"].split("\n") if l.strip()]
+                rows = ls[1:]
+                rng.shuffle(rows)
+                e["specification"] = "\n".join([ls[0]] + rows) + "\n"
         try:
             inst, st = jsl.compile_dict(d, cfg)
         except Exception as e:  # noqa
@@ -1008,6 +1048,11 @@ def c09_compile_stage(ctx):
         checked += 1
         for v in setup_matrix_oracle(d, inst):
             ctx.violations.append(v)
+        # "initially the default tool": every machine starts with tl-0 mounted, whatever its matrix lists first
+        wrong = [(m.id, m.mounted_tool) for m in st.machines if m.mounted_tool != "tl-0"]
+        if wrong:
+            ctx.viol("setup:initial_tool", "machines do not start with the default tool tl-0 mounted: %s" % wrong[:3],
+                     {"dsl": d}, facts={})
     ctx.coverage["setup_matrices_documents_checked"] = checked
 
 
